@@ -954,7 +954,7 @@ func optsFor(prop, tier string) (core.GenOpts, int) {
 		o.Faults = 0.15
 	case "C02":
 		o.Handlers, o.Nested = 0.2, 0.05
-		o.Motifs = []string{"random", "chain", "blocked", "mutex", "autos", "multi", "random", "chain"}
+		o.Motifs = []string{"random", "chain", "blocked", "mutex", "autos", "multi", "random", "chain", "autoveto"}
 		n = 2500
 	case "C03":
 		o.Checks = 0.3
